@@ -72,7 +72,8 @@ def run_tlc_once(module, cfg, *, workers=16, env=None, timeout=1800, coverage=Fa
         cfg_path = cfg if os.path.isabs(cfg) else os.path.join(SPEC, cfg)
         if not os.path.exists(cfg_path):
             raise MachineryError(f"missing cfg {cfg_path}")
-        jopts = ["-XX:+UseParallelGC", f"-Xmx{heap}"]
+        # (TLC leaves an empty tlc-<n> directory in java.io.tmpdir on every start: keep it inside the scratch directory)
+        jopts = ["-XX:+UseParallelGC", f"-Xmx{heap}", f"-Djava.io.tmpdir={tmp}"]
         if dfs:
             jopts.append("-Dtlc2.tool.queue.IStateQueue=StateDeque")
         cmd = ["java", *jopts, "-cp", f"{JAR}:{CM}", "tlc2.TLC",
